@@ -185,14 +185,16 @@ def r2(R2, cfg, F):
             ok = False
             why = 'the handle written is not the cached entry of (id, typ)'
     R2.check(ok, cfg, b.path, 'write-only-on-Ok-of-the-load', 'reload_untyped must write exactly when the load returned Ok, to the cached handle of (id,typ): %s' % why, wr[0].loc() if wr else b.loc())
-    for callee, want in ((r"AnyCache::<'a>::reload_untyped$", ['hot_reloading::dependencies::DepsGraph::reload']),
-                         (r'dependencies::DepsGraph::reload$', ['hot_reloading::paths::run_update']),
-                         (r'^hot_reloading::paths::run_update$', sorted('hot_reloading::paths::HotReloadingData::' + x for x in ('update_if_local', 'update_if_static', 'use_static_ref')))):
-        cs = F.callers_of(callee)
-        R2.check(cs == want, cfg, callee.strip('^$'), 'callers=' + ','.join(x.split('::')[-1] for x in want), 'callers must be %s, are %s' % (want, cs))
+    cs = F.callers_of(r"AnyCache::<'a>::reload_untyped$")
+    R2.check(cs == ['hot_reloading::dependencies::DepsGraph::reload'], cfg, "AnyCache::<'a>::reload_untyped", 'callers=reload', 'callers must be DepsGraph::reload, are %s' % cs)
+    # DepsGraph::reload is called only by the update pass, which only the three update entry points run
+    ups = common.update_passes(F)
+    want = sorted('hot_reloading::paths::HotReloadingData::' + x for x in ('update_if_local', 'update_if_static', 'use_static_ref'))
+    R2.check(sorted(ups) == want, cfg, 'dependencies::DepsGraph::reload', 'callers=run_update', 'the update pass (the only caller of DepsGraph::reload) must be run by %s only, it is run by %s' % (want, sorted(ups)))
+    R2.check(sorted(ups) == want, cfg, 'hot_reloading::paths::run_update', 'callers=update_if_local,update_if_static,use_static_ref', 'callers must be %s, are %s' % (want, sorted(ups)))
     # the reloader's own data structure never reads the source on its own: Source::read* reached only via the load fn pointer
-    for p in ('hot_reloading::paths::run_update', 'hot_reloading::paths::HotReloadingData::handle_events', 'hot_reloading::paths::HotReloadingData::add_asset',
-              'hot_reloading::dependencies::DepsGraph::insert'):
+    for p in [x for x in ('hot_reloading::paths::run_update',) if F.body(x)] + ['hot_reloading::paths::HotReloadingData::handle_events', 'hot_reloading::paths::HotReloadingData::add_asset',
+              'hot_reloading::dependencies::DepsGraph::insert']:
         if not F.body(p):
             R2.missing(cfg, p)
             continue
@@ -234,24 +236,39 @@ def r3(R3, cfg, F):
     # only visit pushes to TopologicalSortData.list
     pushers = sorted({bb.path for bb, _, _, s in field_refs(F, D + 'TopologicalSortData', 'list') if s['rv']['k'] == 'ref' and s['rv']['mut']})
     R3.check(pushers == [b.path], cfg, D + 'TopologicalSortData.list', 'written-only-by-visit', 'mutable access to the order list outside visit: %s' % pushers)
-    ru = F.body('hot_reloading::paths::run_update')
-    if not ru:
+    ups = common.update_passes(F)
+    if not ups:
         R3.missing(cfg, 'run_update')
         return
-    ts = [c for c in ru.calls() if c.callee and c.callee.name == 'topological_sort_from']
-    cl = [c for c in ru.calls() if c.callee and c.callee.name == 'clear' and 'HashSet' in c.callee.best]
-    it = [c for c in ru.calls() if c.callee and c.callee.best == D + 'TopologicalSort::into_iter']
-    rl = [c for c in ru.calls() if c.callee and c.callee.best == D + 'DepsGraph::reload']
-    ok = len(ts) == 1 and len(cl) == 1 and len(it) == 1 and len(rl) == 1
-    if ok:
-        pt = common.make_pt(r'HashSet::<T, S, A>::iter$', r'IntoIterator.*::into_iter$', r'Iterator>::next$')
-        ok = ru.dominates(ts[0].bb, cl[0].bb) and ru.dominates(cl[0].bb, it[0].bb) and ru.access_path(it[0].args[0]) == ['call@bb%d' % ts[0].bb]
-        ok = ok and ru.origins(cl[0].args[0], passthrough=common.pt_deref) == {('arg', 1)}
-        ok = ok and ru.origins(ts[0].args[1], passthrough=pt) == {('arg', 1)} and ru.origins(ts[0].args[0]) == {('arg', 2)}
-        src = ru.downcast_source(rl[0].args[2])
-        ok = ok and bool(src) and src[1] == 'Some' and [r.callee.best for r in ru.call_roots(src[0], passthrough=pt)] == [D + 'TopologicalSort::into_iter']
-        ok = ok and ru.origins(rl[0].args[0]) == {('arg', 2)}
-    R3.check(ok, cfg, ru.path, 'sort-then-clear-then-reload-that-order', 'run_update must sort from the change set, clear it, and reload exactly the sorted keys', ru.loc())
+    # (the pass is the same code wherever it is written: judged once per distinct function that contains it)
+    seen_src = set()
+    for fn, ru in sorted(ups.items()):
+        ts = [c for c in ru.calls() if c.callee and c.callee.name == 'topological_sort_from']
+        cl = [c for c in ru.calls() if c.callee and c.callee.name == 'clear' and 'HashSet' in c.callee.best]
+        it = [c for c in ru.calls() if c.callee and c.callee.best == D + 'TopologicalSort::into_iter']
+        rl = [c for c in ru.calls() if c.callee and c.callee.best == D + 'DepsGraph::reload']
+        ok = len(ts) == 1 and len(cl) == 1 and len(it) == 1 and len(rl) == 1
+        if ok:
+            key = (ts[0].loc(), rl[0].loc())
+            if key in seen_src:
+                continue
+            seen_src.add(key)
+            pt = common.make_pt(r'HashSet::<T, S, A>::iter$', r'IntoIterator.*::into_iter$', r'Iterator>::next$')
+            ok = ru.dominates(ts[0].bb, cl[0].bb) and ru.dominates(cl[0].bb, it[0].bb) and common.deep_path(ru, it[0].args[0]) == ['call@bb%d' % ts[0].bb]
+            # the set cleared is the set sorted from (the change set), the graph sorted is the graph reloaded
+            def base(op, depth=0):
+                ap = common.strip_refs(common.deep_path(ru, op))
+                if ap and ap[0].startswith('call@bb') and depth < 5:
+                    site = [c for c in ru.calls() if 'call@bb%d' % c.bb == ap[0]]
+                    if site and site[0].callee and site[0].callee.name in ('iter', 'into_iter', 'deref', 'deref_mut', 'as_ref', 'as_mut', 'borrow', 'borrow_mut') and site[0].args:
+                        return base(site[0].args[0], depth + 1)
+                return ap
+            cs_ = base(cl[0].args[0])
+            ok = ok and bool(cs_) and cs_ == base(ts[0].args[1]) and cs_[-1:] == ['to_reload']
+            ok = ok and common.strip_refs(common.deep_path(ru, ts[0].args[0])) == common.strip_refs(common.deep_path(ru, rl[0].args[0]))
+            src = ru.downcast_source(rl[0].args[2])
+            ok = ok and bool(src) and src[1] == 'Some' and [r.callee.best for r in ru.call_roots(src[0], passthrough=pt)] == [D + 'TopologicalSort::into_iter']
+        R3.check(ok, cfg, common.RUN_UPDATE if F.body(common.RUN_UPDATE) else fn, 'sort-then-clear-then-reload-that-order', 'the update pass must sort from the change set, clear it, and reload exactly the sorted keys', ru.loc())
 
 
 def r4(R4, cfg, F, hr):
